@@ -6,7 +6,8 @@ From Coq Require Import String List NArith ZArith Bool Permutation.
 Import ListNotations.
 Require Import Verif.Export.OasTypes Verif.Export.OasExport Verif.Export.OasCurrent Verif.Export.GoMapProps
                Verif.Export.OasExportProps Verif.Export.OasParamProps Verif.Export.OasKindProps Verif.Export.SwExport
-               Verif.Export.SwExportProps Verif.Export.SwRoundTrip Verif.Gen.ExportTables.
+               Verif.Export.SwExportProps Verif.Export.SwRoundTrip Verif.Gen.ExportTables
+               Verif.Export.OasParamRefProps Verif.Export.OasStmtProps Verif.Export.CliExport Verif.Export.CliExportProps Verif.Gen.ExportCli.
 Require Verif.Foreign.NameEscape Verif.Foreign.ImportSpec Verif.Foreign.ImportRun.
 
 (* ---- obligations against the source (break when an arm of exportType, the rule filling `required`, the assignment
@@ -185,6 +186,169 @@ Example C12_params_nonvacuous :
       {| op_name := 6%N; op_in := "query"; op_required := false; op_schema := Sch 0%N "integer" "int64" None [] [] [] |};
       {| op_name := 7%N; op_in := "path"; op_required := true; op_schema := Sch 0%N "integer" "int64" None [] [] [] |} ].
 Proof. split; [repeat constructor; cbn; intuition discriminate|reflexivity]. Qed.
+
+(* ---- parameters of a DECLARED type (round 3, second pass; full under distinct parameter names): a path
+   (`/orders/{id <: OrderId}`), query (`?status={Status}`) or header (`(trace <: TraceToken [~header])`) parameter whose type
+   is a reference naming type t (names_type: the three ways the parser writes such a reference, stated without
+   GetRefDetails) is a parameter of the operation in its location, required exactly when the reference is not optional,
+   whose schema is `$ref t` and not the empty schema; the request body likewise *)
+Theorem C12_export_params_refer : forall a n e, NoDup (param_names e) ->
+  let op := export_operation fixed3 ido (snd (build_ep fixed3 ido a (n,e))) in
+  (forall p opt r t, In p (e_url e) -> q_ty p = SRef opt r -> names_type r t -> t <> 0%N ->
+     param_refers op (q_name p) "path" (negb opt) t) /\
+  (forall p opt r t, In p (e_query e) -> q_ty p = SRef opt r -> names_type r t -> t <> 0%N ->
+     param_refers op (q_name p) "query" (negb opt) t) /\
+  (forall p opt r t, In p (e_params e) -> sp_body p = false -> sp_ty p = SRef opt r -> names_type r t -> t <> 0%N ->
+     param_refers op (sp_name p) "header" (negb opt) t).
+Proof. exact export_params_refer. Qed.
+Print Assumptions C12_export_params_refer.
+
+Theorem C12_export_body_refers : forall a n e p opt r t, NoDup (param_names e) ->
+  In p (e_params e) -> sp_body p = true -> (forall q, In q (e_params e) -> sp_body q = true -> q = p) ->
+  sp_ty p = SRef opt r -> names_type r t -> t <> 0%N ->
+  exists s, o_body (export_operation fixed3 ido (snd (build_ep fixed3 ido a (n,e)))) = Some {| ob_required := negb opt; ob_schema := Some s |} /\
+            s_ref s = t /\ s <> empty_schema.
+Proof. exact export_body_refers. Qed.
+Print Assumptions C12_export_body_refers.
+
+(* non-vacuity: `/orders/{id <: OrderId}: GET (trace <: TraceToken [~header]) ?status={Status}?`, the references as the parser
+   writes them *)
+Example C12_params_refer_nonvacuous :
+  let e := {| e_key := KRest "GET" 9;
+              e_params := [{| sp_name := 5; sp_body := false; sp_ty := SRef false {| r_path := [12]; r_app := None; r_ctx := None |} |}];
+              e_query := [{| q_name := 6; q_ty := SRef true {| r_path := [11]; r_app := None; r_ctx := Some 1 |} |}];
+              e_url := [{| q_name := 7; q_ty := SRef false {| r_path := [10]; r_app := None; r_ctx := Some 1 |} |}];
+              e_rets := [] |}%N in
+  NoDup (param_names e) /\
+  names_type {| r_path := [12%N]; r_app := None; r_ctx := None |} 12%N /\
+  o_params (export_operation fixed3 ido (snd (build_ep fixed3 ido {| a_name := 1; a_n200 := 2; a_types := []; a_endpoints := [] |}%N (8%N, e)))) =
+    [ {| op_name := 5%N; op_in := "header"; op_required := true; op_schema := Sch 12%N "" "" None [] [] [] |};
+      {| op_name := 6%N; op_in := "query"; op_required := false; op_schema := Sch 11%N "" "" None [] [] [] |};
+      {| op_name := 7%N; op_in := "path"; op_required := true; op_schema := Sch 10%N "" "" None [] [] [] |} ].
+Proof. exact params_refer_nonvacuous. Qed.
+
+(* the query parameter written WITHOUT braces, `?status=Status`: the parser compiles it to a type without any type
+   (SUntyped), which is exported as the empty schema (full, a fact about the code as it is) - so "every parameter of a
+   declared type carries a reference to it" is REFUTED for that spelling: the operation has the parameter `status`,
+   required, with the empty schema *)
+Theorem C12_export_untyped_is_empty_schema : forall o op, export_type fixed3 o (map_type o (SUntyped op)) = empty_schema.
+Proof. exact export_untyped_is_empty_schema. Qed.
+Print Assumptions C12_export_untyped_is_empty_schema.
+
+Theorem C12_export_param_bare_name_refuted :
+  NoDup (param_names bare_query_endpoint) /\
+  forall a n, o_params (export_operation fixed3 ido (snd (build_ep fixed3 ido a (n, bare_query_endpoint)))) =
+    [ {| op_name := 6%N; op_in := "query"; op_required := true; op_schema := empty_schema |} ].
+Proof. exact export_param_bare_name_refuted. Qed.
+Print Assumptions C12_export_param_bare_name_refuted.
+
+(* ---- return statements NESTED in if / else, loops, for-each, one-of and groups (second pass).  The exporter reads the list
+   syslwrapper.ReturnStatements gives (repair C12-7; before it mapResponse read top-level statements only).  Obligation
+   against the source: mapResponse ranges over that list and every arm of its type switch but the Ret arm recurses *)
+Theorem C12_ret_descend_current : ret_descend_of_source = descend_fixed.
+Proof. exact ret_descend_current. Qed.
+Print Assumptions C12_ret_descend_current.
+
+(* (full) with these arms every return statement of the statement tree is read, in source order, whatever the depth *)
+Theorem C12_reach_complete : forall ss, Forall wf_stmt ss -> reach_rets descend_fixed ss = flat_map all_rets ss.
+Proof. exact reach_rets_complete. Qed.
+Print Assumptions C12_reach_complete.
+
+(* REFUTED for the tree as found (no descent): `if notfound: return 404 <: Err` is in the tree and is not read *)
+Theorem C12_nested_return_found_refuted :
+  In r404 (all_rets (StNest "Cond" [StRet r404])) /\ ~ In r404 (reach descend_found (StNest "Cond" [StRet r404])).
+Proof. exact nested_return_found_refuted. Qed.
+Print Assumptions C12_nested_return_found_refuted.
+
+(* (endpoints, responses, nested; full under the same collision-freeness as C12_export_complete_responses, now over ALL
+   return statements of the tree) every return statement anywhere in the endpoint is the response under its status key
+   with the schema of its payload type *)
+Theorem C12_export_complete_responses_nested : forall a n k ps qs us ss r,
+  let e := {| e_key := k; e_params := ps; e_query := qs; e_url := us; e_rets := reach_rets descend_fixed ss |} in
+  Forall wf_stmt ss ->
+  NoDup (map (ret_key fixed3 (a_types a) (a_name a) (a_n200 a)) (flat_map all_rets ss)) ->
+  NoDup (map (fun r => resp_code (ret_val fixed3 (a_types a) (a_name a) r)) (flat_map all_rets ss)) ->
+  In r (flat_map all_rets ss) ->
+  mget (resp_code (ret_val fixed3 (a_types a) (a_name a) r)) (o_resps (export_operation fixed3 ido (snd (build_ep fixed3 ido a (n,e))))) =
+    Some (rvalue_of fixed3 (ret_val fixed3 (a_types a) (a_name a) r)).
+Proof. exact export_complete_responses_nested. Qed.
+Print Assumptions C12_export_complete_responses_nested.
+
+(* non-vacuity: `if notfound: return 404 <: Err  else: .. return ok <: T` and `one of: case a: for each x in xs: return 500` *)
+Example C12_nested_nonvacuous :
+  let a := {| a_name := 1; a_n200 := 2; a_types := [(3, STuple false false [])]; a_endpoints := [] |}%N in
+  let rok := {| rt_bare := false; rt_name := 6%N; rt_isok := true; rt_atoi := None; rt_shape := RSimple (RPlain 3%N "T") |} in
+  let r500 := {| rt_bare := true; rt_name := 8%N; rt_isok := false; rt_atoi := Some 500%Z; rt_shape := RSimple (RPlain 8%N "500") |} in
+  let ss := [StNest "Cond" [StRet r404]; StNest "Cond" [StLeaf; StRet rok]; StNest "Alt" [StNest "Foreach" [StRet r500]]] in
+  Forall wf_stmt ss /\ flat_map all_rets ss = [r404; rok; r500] /\
+  o_resps (export_operation fixed3 ido (snd (build_ep fixed3 ido a (9%N,
+     {| e_key := KRest "GET" 9%N; e_params := []; e_query := []; e_url := []; e_rets := reach_rets descend_fixed ss |})))) =
+    [(0%N, RNoContent); (200%N, RContent (Some (Sch 3%N "" "" None [] [] []))); (404%N, RContent (Some (Sch 3%N "" "" None [] [] []))); (500%N, RContent None)].
+Proof. exact nested_nonvacuous. Qed.
+
+(* ---- an RPC-style endpoint (`Login (x <: int): ...`, a one-word name) of an exported application (a fact about the code as
+   it is, full): it is not skipped - it is the GET operation of the "path" that is its name *)
+Theorem C12_export_rpc_endpoint_is_get_of_its_name : forall o a, perm_oracle o -> wf_app a ->
+  (forall kv, In kv (a_endpoints a) -> op_key (e_key (snd kv)) <> None) ->
+  exists d, export3_with fixed3 o a = Ok d /\
+    forall n e nm, In (n,e) (a_endpoints a) -> e_key e = KPlain nm ->
+      mget (nm * 16 + 2)%N (d_ops d) = Some (export_operation fixed3 ido (snd (build_ep fixed3 ido a (n,e)))).
+Proof. exact export_rpc_endpoint_is_get_of_its_name. Qed.
+Print Assumptions C12_export_rpc_endpoint_is_get_of_its_name.
+
+(* ---- the command `sysl export` (cmd/sysl/cmd_export.go; model Export/CliExport.v, tables Gen/ExportCli.v).
+   Obligation against the source: which field every flag is bound to, determineOperationMode's table, where Execute stores
+   the mode, which exporter every arm of writeSwaggerForApp builds and WHICH FIELD it hands to SerializeOutput, the
+   naming rule *)
+Theorem C12_cli_tables_current : cli_tables_of_source = cli_fixed /\ cli_unknown = [].
+Proof. exact cli_tables_current. Qed.
+Print Assumptions C12_cli_tables_current.
+
+(* (format; full) whatever the flags, the applications and the iteration order: every file the command writes is
+   serialised in the mode that is the extension of the --output value, json or yaml (SerializeOutput writes JSON exactly for
+   "json"), by the exporter -f names *)
+Theorem C12_cli_written_in_asked_format : forall o args apps ws w,
+  cli_run cli_fixed o args apps = CFiles ws -> In w ws ->
+  let f0 := apply_flags cli_fixed args in
+  ext (f_out f0) = String dot (w_ser w) /\ (w_ser w = "json"%string \/ w_ser w = "yaml"%string) /\ ser_format (w_ser w) = w_ser w /\
+  exporter_of (f_mode f0) = Some (w_exporter w).
+Proof. exact cli_written_in_asked_format. Qed.
+Print Assumptions C12_cli_written_in_asked_format.
+
+(* (a fact about the command as it is) any other extension - x.yml, x.JSON, no extension - writes nothing *)
+Theorem C12_cli_other_extension_writes_nothing : forall o args apps,
+  let e := no_dot (ext (f_out (apply_flags cli_fixed args))) in
+  e <> "json"%string -> e <> "yaml"%string -> forall ws, cli_run cli_fixed o args apps <> CFiles ws.
+Proof. exact cli_other_extension_writes_nothing. Qed.
+Print Assumptions C12_cli_other_extension_writes_nothing.
+
+(* (one file per application; full) without --app-name, distinct application names, any iteration order: one file per
+   application, each under a name of its own; with --app-name naming an application: exactly one file, for it *)
+Theorem C12_cli_one_file_per_app : forall o args apps ws, perm_order o -> NoDup apps ->
+  f_appName (apply_flags cli_fixed args) = ""%string ->
+  cli_run cli_fixed o args apps = CFiles ws ->
+  Permutation (map w_app ws) apps /\ NoDup (map w_file ws) /\
+  forall w, In w ws -> w_file w = if has_templ (f_out (apply_flags cli_fixed args)) then FLabel (w_app w) else FInfix (w_app w).
+Proof. exact cli_one_file_per_app. Qed.
+Print Assumptions C12_cli_one_file_per_app.
+
+Theorem C12_cli_selected_app_one_file : forall o args apps a, perm_order o -> NoDup apps -> In a apps -> a <> ""%string ->
+  f_appName (apply_flags cli_fixed args) = a ->
+  forall ws, cli_run cli_fixed o args apps = CFiles ws ->
+  exists w, ws = [w] /\ w_app w = a /\ w_file w = if has_templ (f_out (apply_flags cli_fixed args)) then FLabel a else FLit.
+Proof. exact cli_selected_app_one_file. Qed.
+Print Assumptions C12_cli_selected_app_one_file.
+
+(* non-vacuity: `-f openapi3 -o x.json` on two applications (reverse order), `-a Shop -o out.yaml`, `-o x.yml`, no flags *)
+Example C12_cli_nonvacuous :
+  cli_run cli_fixed (@rev string) [("format", "openapi3"); ("output", "x.json")]%string ["Ns :: Deep"; "Shop"]%string =
+    CFiles [ {| w_file := FInfix "Shop"; w_exporter := "openapi3"; w_ser := "json"; w_app := "Shop" |};
+             {| w_file := FInfix "Ns :: Deep"; w_exporter := "openapi3"; w_ser := "json"; w_app := "Ns :: Deep" |} ] /\
+  cli_run cli_fixed (fun l => l) [("app-name", "Shop"); ("output", "out.yaml")]%string ["Ns :: Deep"; "Shop"]%string =
+    CFiles [ {| w_file := FLit; w_exporter := "swagger"; w_ser := "yaml"; w_app := "Shop" |} ] /\
+  cli_run cli_fixed (fun l => l) [("output", "x.yml")]%string ["Shop"]%string = CErr "extension"%string /\
+  cli_run cli_fixed (fun l => l) [] ["Shop"]%string = CFiles [ {| w_file := FLabel "Shop"; w_exporter := "swagger"; w_ser := "yaml"; w_app := "Shop" |} ].
+Proof. exact cli_nonvacuous. Qed.
 
 (* ---- termination on recursive types (full): the schema is no deeper than the type's own syntax tree, for every table,
    iteration order and reference graph; a reference, also one closing a cycle, is a leaf naming its target *)
